@@ -103,8 +103,14 @@ func (f *Font) WidthsMapPDF() map[string]float64 {
 //
 // TODO(voss): remove in favour of FontBBoxPDF
 func (f *Font) FontBBox() (bbox rect.Rect) {
+	// For coordinates like -0 or NaN the union depends on the order of the
+	// glyphs: use a fixed one.
+	names := maps.Keys(f.Glyphs)
+	sort.Strings(names)
+
 	first := true
-	for _, glyph := range f.Glyphs {
+	for _, name := range names {
+		glyph := f.Glyphs[name]
 		thisBBox := glyph.BBox()
 		if thisBBox.IsZero() {
 			continue
@@ -122,8 +128,12 @@ func (f *Font) FontBBox() (bbox rect.Rect) {
 // FontBBoxPDF returns the font bounding box in PDF glyph space units.
 // This is the smallest rectangle enclosing all individual glyphs bounding boxes.
 func (f *Font) FontBBoxPDF() (fontBBox rect.Rect) {
+	// see FontBBox for why the glyphs are visited in a fixed order
+	names := maps.Keys(f.Glyphs)
+	sort.Strings(names)
+
 	first := true
-	for glyphName := range f.Glyphs {
+	for _, glyphName := range names {
 		glyphBBox := f.GlyphBBoxPDF(glyphName)
 		if glyphBBox.IsZero() {
 			continue
